@@ -552,6 +552,26 @@ func (e *Exec) checkFrameAgainst(mods []ast.Expr, entry *State, finals []*State,
 					a := get(k)
 					a.objs = append(a.objs, so.S)
 				}
+			case id != nil && id.Name == "opof":
+				so, fld := e.syncMapOwner(x.Args[0], sc)
+				a := get("OP!" + fld)
+				a.objs = append(a.objs, so.S)
+			case id != nil && id.Name == "cell":
+				pv := e.eval(x.Args[0], sc)
+				if pv.T.K == KRef && pv.T.Name == "" {
+					a := get("P!" + mangle(e.Sort(pv.T.Elem)))
+					a.objs = append(a.objs, pv.S)
+				}
+			case id != nil && id.Name == "ovof":
+				so, fld := e.syncMapOwner(x.Args[0], sc)
+				a := get("OV!" + fld)
+				a.objs = append(a.objs, so.S)
+			case id != nil && id.Name == "opall":
+				// opall(T.f): the counters of field f of every T
+				if se, ok := x.Args[0].(*ast.SelectorExpr); ok {
+					t := e.specType(se.X, sc)
+					get("OP!" + t.Name + "!" + se.Sel.Name).whole = true
+				}
 			}
 		}
 	}
